@@ -61,8 +61,73 @@ def specPoint2 (s t : String) (f : Point → Point → String) : Option String :
 
 def encS (P : Spec.Edwards.Point) : String := Hex.encode (Spec.Edwards.encode P)
 
+/-! ### ge.prog — a stack machine over extended points (results reused as operands, z ≠ 1) -/
+
+/-- one token of the program on the model's `Ge` stack; `none` = malformed, `some none` = refused decoding / panic -/
+def geProgStepImpl (st : List Ge) (tok : String) : Option (Option (List Ge)) :=
+  let c := tok.take 1
+  let rest := tok.drop 1
+  match c.toString, st with
+  | "b", _ => (argN 32 rest.toString).map fun b => match Ge.from_bytes b with
+      | some (some g) => some (g :: st)
+      | _ => none
+  | "m", _ => (argN 32 rest.toString).map fun b => do
+      let s ← Impl.Scalar64.fromBytes b
+      let g ← Ge.scalarmult_base s
+      pure (g :: st)
+  | "+", q :: p :: r => some (do let x ← p.add_cached (← q.to_cached); pure ((← x.to_full) :: r))
+  | "-", q :: p :: r => some (do let x ← p.sub_cached (← q.to_cached); pure ((← x.to_full) :: r))
+  | "d", p :: r => some (do pure ((← p.double) :: r))
+  | "D", p :: r => some (do pure ((← p.to_partial.double_full) :: r))
+  | "e", p :: r => some (do pure ((← (← p.double_partial).double_full) :: r))
+  | "n", p :: r => some (do pure ((← p.negate) :: r))
+  | "c", p :: r => some (some (p :: p :: r))
+  | "x", q :: p :: r => some (some (p :: q :: r))
+  | _, _ => none
+
+def geProgImpl : Handler := h1 fun prog =>
+  let rec go (toks : List String) (st : List Ge) : Option String :=
+    match toks with
+    | [] => match st with
+      | g :: _ => some ((g.to_bytes.map Hex.encode).getD "PANIC")
+      | [] => some "bad-args"
+    | t :: ts => match geProgStepImpl st t with
+      | none => some "bad-args"
+      | some none => some (if t.take 1 == "b" then "none" else "PANIC")
+      | some (some st') => go ts st'
+  go (prog.splitOn ";") []
+
+open Spec.Edwards in
+def geProgSpec : Handler := h1 fun prog =>
+  let step (st : List Point) (tok : String) : Option (Option (List Point)) :=
+    let c := tok.take 1
+    let rest := tok.drop 1
+    match c.toString, st with
+    | "b", _ => (argN 32 rest.toString).map fun b => (decode b).map (· :: st)
+    | "m", _ => (argN 32 rest.toString).map fun b => if leNat b < 2 ^ 255 then some (smul (leNat b) B :: st) else none
+    | "+", q :: p :: r => some (some (add p q :: r))
+    | "-", q :: p :: r => some (some (sub p q :: r))
+    | "d", p :: r => some (some (double p :: r))
+    | "D", p :: r => some (some (double p :: r))
+    | "e", p :: r => some (some (double (double p) :: r))
+    | "n", p :: r => some (some (neg p :: r))
+    | "c", p :: r => some (some (p :: p :: r))
+    | "x", q :: p :: r => some (some (p :: q :: r))
+    | _, _ => none
+  let rec go (toks : List String) (st : List Point) : Option String :=
+    match toks with
+    | [] => match st with
+      | P :: _ => some (encS P)
+      | [] => some "bad-args"
+    | t :: ts => match step st t with
+      | none => some "bad-args"
+      | some none => some (if t.take 1 == "b" then "none" else "?")
+      | some (some st') => go ts st'
+  go (prog.splitOn ";") []
+
 open Spec.Edwards in
 def ops : List OpEntry := [
+  ⟨"ge.prog", geProgImpl, geProgSpec⟩,
   ⟨"ge.decode", h1 (fun a => withPoint a fun g => (g.to_bytes).map fun b => "some:" ++ Hex.encode b),
                 h1 (fun a => specPoint a fun P => "some:" ++ encS P)⟩,
   ⟨"ge.roundtrip", h1 (fun a => withPoint a fun g => do
